@@ -47,7 +47,7 @@ func H_C15_camelkey() {
 }
 
 //verif:witness H_C15_refresh ok rejected
-//verif:bound C15 all real Refresh (NewPlugin/inject/injectAttribute/injectElement through the reflect shim) for every registered logger type (Logger, AsyncLogger, Discard, Console, File, RollingFile) x appender type (Discard, Console, File, RollingFile) x 12 configuration variants (valid; no appender section; unknown logger type; unknown appender type; dangling appenderRef; missing tags; ill-typed attribute; bad policy; bad level; property injection error; ${key} present; ${key} absent): returns nil or an error as specified, never panics
+//verif:bound C15 all real Refresh (NewPlugin/inject/injectAttribute/injectElement through the reflect shim) for every registered logger type (Logger, AsyncLogger, Discard, Console, File, RollingFile) x appender type (Discard, Console, File, RollingFile) x 17 configuration variants (valid; ${sub-tree} placeholders; level values '~', 'info~', '~error'; no appender section; unknown logger type; unknown appender type; dangling appenderRef; missing tags; ill-typed attribute; bad policy; bad level; property injection error; ${key} present; ${key} absent): returns nil or an error as specified, never panics
 //verif:assume C15 the expression-text -> map step of 'name!' entries is ANTLR's (see C17); toStorage is exercised with expr.Parse replaced by a table for the texts the harness uses, validated natively against the real parser on every cross-checked path
 
 func vLoggerNeedsRefs(typ string) bool { return typ == "Logger" || typ == "AsyncLogger" }
@@ -89,7 +89,22 @@ func H_C15_refresh() {
 		cfg["logger.l1.appenderRef.ref"] = "a1"
 	}
 	wantErr := false
-	switch vChoose("variant", 12) {
+	switch vChoose("variant", 17) {
+	case 12: // a placeholder naming a configuration sub-tree is not a property
+		cfg["logger.l1.level"] = "${appender}"
+		wantErr = true
+	case 13:
+		cfg["logger.l1.level"] = "~"
+		wantErr = true
+	case 14:
+		cfg["logger.l1.level"] = "info~"
+		wantErr = true
+	case 15:
+		cfg["logger.l1.level"] = "~error"
+		wantErr = true
+	case 16:
+		cfg["logger.l1.level"] = "${logger.l1}"
+		wantErr = true
 	case 0: // valid
 	case 1:
 		for k := range cfg {
